@@ -23,8 +23,8 @@ Payloads == {"empty", "one_byte", "incompressible_4k", "repetitive_64k", "repeti
              "own_frame", "magic_prefix", "repetitive_3m",
              \* text whose first or last characters a reader might be tempted to treat as not being text: a byte
              \* order mark, NUL, white space, line ends, combining marks, noncharacters -- all of them valid UTF-8
-             "text_edge"}
-SmallPayloads == {"empty", "one_byte", "incompressible_4k", "text_8k", "text_edge"}
+             "text_edge", "bom_text"}     \* bom_text: always starts with U+FEFF
+SmallPayloads == {"empty", "one_byte", "incompressible_4k", "text_8k", "text_edge", "bom_text"}
 Codecs == {"string", "bytes", "bincode"}
 Batching == {0, 3}
 \* what the same compressor / decompressor / codec objects processed before the value under test (a
